@@ -1327,10 +1327,12 @@ type GoCode struct {
 	Multiline     bool
 }
 
-// writesSeveralLines reports whether the code is written in the multi-line form: when it spans
-// lines in the source, or when gofmt spreads it over lines ({{ a := 1; b := 2 }}).
+// writesSeveralLines reports whether the code is written in the multi-line form: when the code
+// that is written spans lines. gofmt spreads some code over lines ({{ a := 1; b := 2 }}) and joins
+// other code onto one line (a call whose closing parenthesis is on the next line), so it is the
+// formatted code that decides, not the lines of the source.
 func (gc GoCode) writesSeveralLines(formatted []byte) bool {
-	return gc.Multiline || bytes.Contains(bytes.TrimSpace(formatted), []byte("\n"))
+	return bytes.Contains(bytes.TrimSpace(formatted), []byte("\n"))
 }
 
 func (gc GoCode) Trailing() TrailingSpace {
